@@ -785,7 +785,12 @@ class PE:
                 return v
             if isinstance(v, P):
                 f = p_floor(v)
-                return int(f.const_value()) if f.is_const() else f
+                if f.is_const():
+                    c = v.const_value() if v.is_const() else None
+                    return int(c) if c is not None else int(f.const_value())          # int() truncates towards zero
+                if f == v:
+                    return v            # integral already (sizes, or the result of floor): int() is the identity
+                return P.atom('trunc(%s)' % v.canon())      # truncation towards zero: NOT floor for negative values
             return Opaque('int(%s)' % getattr(v, 'text', v))
         if n in ('len', 'builtins.len') and args:
             if isinstance(args[0], (list, tuple, str, dict)):
